@@ -1,6 +1,7 @@
 """Which contract modules carry obligations for which property."""
 _CODECS = ["contracts.at4_ctrl_status", "contracts.at5_ext"]
 _SOCK = ["contracts.sock_queue", "contracts.sock_conn"]
+_HB = ["contracts.heartbeat"]
 MODULES = {
     "C01": _SOCK,
     "C02": _SOCK,
@@ -9,6 +10,7 @@ MODULES = {
     "C05": _CODECS,
     "C06": ["contracts.c06_crc"] + _SOCK,
     "C07": _SOCK,
+    "C08": _HB + ["contracts.sock_conn"],
     "C13": _SOCK,
     "C15": _SOCK,
     "C16": _SOCK,
